@@ -222,10 +222,39 @@ def rtbss : P String := do
   let v := v.diffIf (wellSep && ma != ia) s!"RTBSS action model={ma} impl={ia}"
   return v.render
 
+/-- number of planes of Γ that are maximal at x -/
+def activeCount (S : Nat) (Γ : List Vec) (x : Vec) : Nat :=
+  let e := env S Γ x
+  (Γ.filter (fun α => dot S x α == e)).length
+
+/-- `verts S n planes | k vertices`: the contract of `findVerticesNaive` that LinearSupport relies on — every vertex of the partition
+    induced by the planes (interior, or on an edge/face of the simplex; corners excluded) is among the returned points.  Only *simple*
+    vertices are demanded (exactly S − #zero-coordinates planes active, no coincidence), so degenerate systems cannot raise an alarm. -/
+def verts : P String := do
+  let S ← P.nat; let n ← P.nat
+  let planes ← P.rep (vecP S) n; P.bar
+  let k ← P.nat
+  let vs ← P.rep (do let x ← vecP S; let v ← P.q; pure (x, v)) k
+  P.eof
+  let exactVs := partitionVertices S planes
+  let simple := exactVs.filter (fun x =>
+    let zeros := ((List.range S).filter (fun s => x.get s == 0)).length
+    -- "We do NOT return simplex corners": the code drops points whose largest coordinate is within 1e-6 of 1; stay clear of that band
+    let nearCorner := (List.range S).any (fun s => decide (x.get s > 1 - 1 / 100000))
+    zeros < S - 1 && activeCount S planes x + zeros == S && !nearCorner)
+  let tol : Rat := 1 / 1000000
+  let found (x : Vec) : Bool := vs.any (fun (p : Vec × Rat) => allLt S (fun s => decide (absQ (p.1.get s - x.get s) ≤ tol)))
+  let v : Verdict := { tag := s!"verts S{S}" ++ (if simple.isEmpty then " trivial" else "") }
+  let onFace (x : Vec) : Bool := (List.range S).any (fun s => x.get s == 0)
+  let v := simple.foldl (fun v x =>
+    v.failIf (!(found x)) (s!"findVerticesNaive " ++ (if onFace x then "boundary_vertex_not_found" else "interior_vertex_not_found") ++ s!" x=[{showVec x}]")) v
+  return v.render
+
 def handle (toks : List String) : String :=
   let r := match toks with
     | "vf" :: rest => P.run vf rest
     | "rtbss" :: rest => P.run rtbss rest
+    | "verts" :: rest => P.run verts rest
     | _ => none
   r.getD "bad-op"
 
